@@ -32,7 +32,8 @@ pub const SIGS: [Sig; 6] = [Sig::Plain, Sig::TrArg, Sig::RetTr, Sig::RetOpt, Sig
 pub const PRELUDE: &str = "\
 record R { t: Tr, n: i32 }
 record RS { s: String, l: List[Tr] }
-enum En { A(Tr, Tr), B(i32), C }
+enum En { A(Tr, Tr), B(i32), C, D(u64, Tr), E(u32, u32, Tr), F(Tr, u64, String) }
+record R2 { n: u64, t: Tr, s: String }
 const KT: Tr = mk(900);
 fn id(x: Tr) -> Tr { x }
 fn two(x: Tr, y: Tr) -> Tr { y }
@@ -41,7 +42,8 @@ fn pay(o: Tr?) -> Tr { match o { Some(v) => v, None => mk(901) } }
 fn first(l: List[Tr]) -> Tr { match l.get(0) { Some(v) => v, None => mk(902) } }
 fn mkr(k: u64) -> R { R { t: mk(k), n: 1 } }
 fn optn(c: bool) -> i32? { if c { Option.Some(1) } else { Option.None } }
-fn ena(e: En) -> u64 { match e { A(x, y) => val(x) + val(y), B(n) => 1, C => 2 } }
+fn ena(e: En) -> u64 { match e { A(x, y) => val(x) + val(y), B(n) => 1, C => 2, D(n, x) => n + val(x), E(p, q, x) => val(x), F(x, n, s) => val(x) + n } }
+fn payd(e: En) -> Tr { match e { D(n, x) => x, E(p, q, x) => x, F(x, n, s) => x, A(x, y) => y, _ => mk(903) } }
 ";
 
 struct G {
@@ -54,9 +56,9 @@ struct G {
     sig: Sig,
 }
 
-const N_V: usize = 10;
+const N_V: usize = 13;
 const N_B: usize = 8;
-pub const ROTATIONS: usize = 10;
+pub const ROTATIONS: usize = 13;
 
 impl G {
     fn k(&mut self) -> u64 {
@@ -86,6 +88,9 @@ impl G {
             6 => format!("first([mk({k}), mk({})])", k + 500),
             7 => format!("two(mk({k}), mk({}))", k + 500),
             8 => "KT".to_string(),
+            10 => format!("payd(En.D({k}, mk({k})))"),
+            11 => format!("payd(En.E(1, 2, mk({k})))"),
+            12 => format!("payd(En.F(mk({k}), 9, f\"{{a}}\"))"),
             _ => {
                 if self.sig == Sig::TrArg {
                     "t".to_string()
@@ -162,7 +167,10 @@ impl G {
                 let v1 = self.v();
                 let v2 = self.v();
                 let v3 = self.v();
-                format!("let {o} = Option.Some({v1}); let {o}e = En.A({v2}, {v3}); let {o}n: Tr? = Option.None;")
+                let v4 = self.v();
+                let v5 = self.v();
+                let v6 = self.v();
+                format!("let {o} = Option.Some({v1}); let {o}e = En.A({v2}, {v3}); let {o}n: Tr? = Option.None; let {o}d = En.D(7, {v4}); let {o}f = En.E(1, 2, {v5}); let {o}g = En.F({v6}, 9, f\"{{b}}\"); let {o}r = R2 {{ n: 5, t: mk(77), s: f\"{{a}}\" }}; {o}d = En.B(1); let {o}h = {o}f;")
             }
             St::ListOps => {
                 let l = self.fresh("l");
@@ -284,7 +292,7 @@ impl G {
                 format!("let {t} = {{ let q = {v1}; {inner} {v2} }};")
             }
             St::ExitIn(kind) => {
-                self.features.push(["exit_in_record", "exit_in_enum", "exit_in_list", "exit_in_call_args", "exit_in_method_args"][kind as usize]);
+                self.features.push(["exit_in_record", "exit_in_enum", "exit_in_list", "exit_in_call_args", "exit_in_method_args", "exit_in_short_circuit"][kind as usize]);
                 let r = self.fresh("r");
                 let (v1, v2, v3) = (self.v(), self.v(), self.v());
                 let c1 = self.cond();
@@ -300,6 +308,22 @@ impl G {
                     };
                     (format!("{{ if {c1} {{ {ret} }} 1 }}"), format!("{{ if {c1} {{ {ret} }} {v2} }}"))
                 };
+                if kind == 5 {
+                    // a live tracked local, then `cond && { return .. }`: the right
+                    // operand leaves the function only when it is evaluated
+                    let ret = if self.sig == Sig::RetOpt {
+                        "return Option.None;".to_string()
+                    } else {
+                        match self.sig {
+                            Sig::Plain | Sig::TrArg | Sig::StrListArg => "return 9;".to_string(),
+                            Sig::RetTr => format!("return {v3};"),
+                            Sig::Filter => format!("reject {v3};"),
+                            Sig::RetOpt => unreachable!(),
+                        }
+                    };
+                    let op = if self.pos % 2 == 0 { "&&" } else { "||" };
+                    return format!("let {r} = {v1}; let {r}c = {c1} {op} {{ {ret} }};");
+                }
                 match kind {
                     0 => format!("let {r} = R {{ t: {v1}, n: {exit_i32} }};"),
                     1 => format!("let {r} = En.A({v1}, {exit_tr});"),
@@ -342,11 +366,13 @@ pub enum St {
     BlockValue,
     ShortCircuit,
     /// early exit (`?` or `return`) in the middle of building a record (0),
-    /// enum (1), list (2), call arguments (3), method call arguments (4)
+    /// enum (1), list (2), call arguments (3), method call arguments (4),
+    /// the right operand of `&&` / `||` (5)
     ExitIn(u8),
 }
 
-pub const STMTS: [St; 28] = [
+pub const STMTS: [St; 29] = [
+    St::ExitIn(5),
     St::ExitIn(0),
     St::ExitIn(1),
     St::ExitIn(2),
